@@ -3,7 +3,12 @@
              committed filter header tokens for heights 0.., 
              MakeHeaderForFilter table ((filter, prev header) -> header),
              filter size table, initial database contents,
-             list of (operation, observation made on the real code)). *)
+             list of (operation, observation made on the real code)).
+   Operations: GetCFilter calls, flush barriers, cache resets, purges, header
+   rewrites (XR), GetBlock calls (XG: cache and database observed afterwards)
+   and GetCFilter calls whose database read transaction is followed by write
+   commits of other writers (CW_: the puts in order; the database is observed
+   at the flush barrier that follows). *)
 From Coq Require Import ZArith List Bool.
 From Verif Require Import C05.Model C05.Spec.
 Import ListNotations.
@@ -61,11 +66,11 @@ Definition obs_eqb (o : op) (m i : obs) : bool :=
 Definition case : Type :=
   (Z * Z * bool * list Z * list ((Z * Z) * Z) * list (Z * Z) * list (Z * Z) * list (xop * obs))%type.
 
-Definition xop_inner (o : xop) : op := match o with XBase o' => o' | XRewrite _ _ => DropCache end.
 Definition xobs_eqb (o : xop) (m i : obs) : bool :=
   match o with
   | XBase o' => obs_eqb o' m i
-  | XRewrite _ _ => list_eqb pair_eqb (o_cache m) (o_cache i) && db_eqb (o_db m) (o_db i)
+  | XRewrite _ _ | XGetBlock _ => list_eqb pair_eqb (o_cache m) (o_cache i) && db_eqb (o_db m) (o_db i)
+  | XCallW c _ => obs_eqb (Call c) m i
   end.
 
 Fixpoint first_mismatch (Hf : Z -> Z -> Z) (fsize : Z -> Z) (cap : Z) (persist : bool)
@@ -95,7 +100,7 @@ Fixpoint stale_after (Hf : Z -> Z -> Z) (fsize : Z -> Z) (cap : Z) (persist : bo
 Definition verdict_of (c : Z * case) : list (Z * Z * Z * Z) :=
   let '(id, (best, cap, persist, fhs, hft, szt, d0, tr)) := c in
   let Hf := t_Hf hft in let fh := t_fh fhs in
-  let st0 := {| base := {| cache := []; db := d0; dbq := [] |}; hdrs := fh; xbest := best; stale := false |} in
+  let st0 := {| base := {| cache := []; db := d0; dbq := [] |}; hdrs := fh; xbest := best; stale := false; envbad := false |} in
   (match first_mismatch Hf (t_size szt) cap persist st0 0 tr with
    | Some i => [(id, 1, i, 0)] | None => [] end) ++
   (if all_verified Hf fh d0
@@ -123,6 +128,11 @@ Definition XF (n : Z) : xop := XBase (Flush n).
 Definition XD : xop := XBase DropCache.
 Definition XP : xop := XBase PurgeDB.
 Definition XR (nb : Z) (fhs : list Z) : xop := XRewrite nb (t_fh fhs).
+Definition XG (b : Z) : xop := XGetBlock b.
+Definition CW_ (blk : Z) (known ft : bool) (batch maxb : Z) (rs : list resp) (v : verdict)
+    (w : list (Z * Z)) : xop :=
+  XCallW {| c_blk := blk; c_known := known; c_ftype_ok := ft; c_batch := batch; c_maxbatch := maxb;
+            c_resps := rs; c_verdict := v |} w.
 Definition O_ (r : result) (q : bool) (rg : Z * Z) (pg : list progress)
     (cache db : list (Z * Z)) : obs :=
   {| o_res := r; o_queried := q; o_range := rg; o_prog := pg; o_cache := cache; o_db := db |}.
